@@ -1,6 +1,7 @@
 pub mod matchers;
 pub mod store;
 pub mod streams;
+pub mod terms;
 pub mod streams_chains;
 pub mod views;
 pub mod util;
